@@ -273,6 +273,14 @@ func checkC17(tier, replay string) int {
 						}
 					}
 				}
+				if k.typ == "asa" || k.typ == "ios" || k.typ == "linux" {
+					// The ssh client dies while the prompt for a password
+					// (login, enable) is still on its way.
+					for o := 1; o <= 3 && o <= n; o++ {
+						cases = append(cases, &c17Case{Type: k.typ, FrontEnd: k.fe, Compare: k.cmp, Alphabet: al,
+							Fault: &sim.Fault{Ord: o, Kind: "die-before"}, Seed: rng.Int63()})
+					}
+				}
 				for o := range pos {
 					kinds := faultKinds(k.typ)
 					if k.typ == "panos" {
